@@ -24,11 +24,29 @@ func vStoreFixture(cfg Config, c vCfgT, dir string, nitems int) (g vSetModel) {
 	snap, _ := db.NewSnapshot()
 	g = model
 	snap.Open()
-	err := db.StoreToDisk(dir, snap, 1, nil)
+	var cb ItemCallback
+	if cfg.useDeltaFiles && nitems > 1 {
+		// delta mode: make the delta files non-empty. At the first item callback the last key (not yet visited) is
+		// deleted and, with every other snapshot released, garbage-collected, so it reaches the backup only through
+		// a delta file.
+		old.Close()
+		calls := 0
+		lastKey := byte(10 + 7*(nitems-1))
+		cb = func(e *ItemEntry) {
+			if calls == 0 {
+				w.Delete(c.item(lastKey, 0))
+				s2, _ := db.NewSnapshot()
+				snap.Close() // our extra reference
+				s2.Close()
+				vQuiesce()
+			}
+			calls++
+		}
+	}
+	err := db.StoreToDisk(dir, snap, 1, cb)
 	if err != nil {
 		vFail("fixture: StoreToDisk failed")
 	}
-	_ = old
 	return
 }
 
